@@ -20,6 +20,7 @@ func init() {
 			"currEpochStartRound+minRoundsBetweenEpochs and, on the 'too early' side, replaced by exactly that sum. (S3) in Update the epoch counter is incremented by the constant 1, at most once per call, " +
 			"only on the branch where no epoch start is pending (!isEpochStart) and the start condition - which depends on the normal (strict `>` against currEpochStartRound+roundsPerEpoch) and the forced trigger - " +
 			"holds; on the same branch isEpochStart is set and currEpochStartRound becomes the current round. " +
+			"After every assignment of the forced round in ForceEpochStart every exit lies behind the minimum test, the clamp or the disabling store; the forced round is cleared on every path from the epoch increment to the return of Update. " +
 			"Not decided (value-level): the arithmetic relation between consecutive start rounds over round sequences with gaps.",
 		Run: runC34,
 	})
@@ -82,6 +83,39 @@ func runC34(c *core.Ctx) {
 		})
 		c.Check(ok, "C34/forced-start-clamped", "trigger.ForceEpochStart", fn.Pos(), "a too-early forced round is replaced by currEpochStartRound+minRoundsBetweenEpochs",
 			"no branch `nextEpochStartRound < currEpochStartRound+minRoundsBetweenEpochs` that clamps the forced round to that sum: an epoch can be forced to start before the minimum number of rounds")
+		// whatever value is stored as the forced round, every way out of the function passes the clamp
+		// store, the disabling store, or the branch on which the value is known not to be below the minimum
+		disabled := ""
+		if k := c.P.Const(pkg, "disabledRoundForForceEpochStart"); k != nil {
+			disabled = k.Val().ExactString()
+		}
+		isFinal := func(in ssa.Instruction) bool {
+			st, isSt := in.(*ssa.Store)
+			if !isSt || !isRecvFieldAddr(fn, st.Addr, "nextEpochStartRound") {
+				return false
+			}
+			k := core.ExprKey(st.Val)
+			return k == sumKey || disabled != "" && k == disabled
+		}
+		notBelow := edgeFact(func(f core.Fact, _ core.Cond) bool {
+			if (f.Op == "<=" || f.Op == "<") && f.A == sumKey && f.B == "recv.nextEpochStartRound" {
+				return true
+			}
+			// equivalent difference form (its subtraction is decided by S1)
+			return (f.Op == "<=" || f.Op == "<") && f.A == "recv.minRoundsBetweenEpochs" && f.B == "(recv.nextEpochStartRound - recv.currEpochStartRound)"
+		})
+		k := 0
+		core.Instrs(fn, func(in ssa.Instruction) {
+			st, isSt := in.(*ssa.Store)
+			if !isSt || !isRecvFieldAddr(fn, st.Addr, "nextEpochStartRound") || isFinal(in) {
+				return
+			}
+			k++
+			esc, path := core.PathQ{Fn: fn, From: in, Via: isFinal, ViaEdge: notBelow, Target: core.AnyReturn}.Escape()
+			c.Check(esc == nil, "C34/forced-start-clamped", fmt.Sprintf("trigger.ForceEpochStart/store#%d-reaches-exit-clamped", k), st.Pos(),
+				"after this assignment of the forced round every exit lies behind the minimum test, the clamp or the disabling store",
+				"a forced round assigned here ("+core.ExprKey(st.Val)+") reaches the end of ForceEpochStart without passing the minimum-length test, the clamp or the disabling store ("+c.P.PathString(path)+"): the epoch can be ended before minRoundsBetweenEpochs")
+		})
 	}
 	// ---- S3
 	if fn := anchorM(c, pkg, "trigger", "Update"); fn != nil {
@@ -171,8 +205,22 @@ func runC34(c *core.Ctx) {
 					}
 				}
 			}
+			if cleared {
+				// ... and on every path from the epoch increment to the return
+				isClear := func(in ssa.Instruction) bool {
+					s3, ok := in.(*ssa.Store)
+					if !ok || !isRecvFieldAddr(fn, s3.Addr, "nextEpochStartRound") {
+						return false
+					}
+					k := c.P.Const(pkg, "disabledRoundForForceEpochStart")
+					return k != nil && core.ExprKey(s3.Val) == k.Val().ExactString()
+				}
+				if esc, _ := (core.PathQ{Fn: fn, From: st, Via: isClear, Target: core.AnyReturn}).Escape(); esc != nil {
+					cleared = false
+				}
+			}
 			c.Check(cleared, "C34/epoch-increment-once", "trigger.Update/forced-round-cleared", st.Pos(), "a (possibly forced) start round is consumed: nextEpochStartRound is reset to the disabled value when the epoch starts",
-				"the forced start round is not cleared when the epoch starts: it stays in the past and the next Update after SetProcessed starts yet another epoch one round later")
+				"the forced start round is not cleared on every path when the epoch starts: a stale forced round stays armed (after SetProcessed, or after a revert that moves the epoch start back) and ends a later epoch before its minimum length")
 			for _, in := range st.Block().Instrs {
 				if s2, ok := in.(*ssa.Store); ok {
 					if isRecvFieldAddr(fn, s2.Addr, "isEpochStart") {
